@@ -11,6 +11,7 @@ CONSTANTS T = 8
           Unaligned = FALSE
           MaxHist = 3
           HistLen = 2
+          CaseWorlds = {1, 2, 4, 5}
 INVARIANTS RespIsDirect C42_ExtentsHoldDirectData C42_ExtentsOrdered
 PROPERTIES C42_ResponsesAreDirect
 VIEW View
